@@ -166,6 +166,10 @@ class BodyGen:
                 lines = ['v = yield ' + val]
         if rng.random() < 0.5:
             lines.append("log(('v', v))")
+        c = self.cur_ctx()
+        if (c.startswith(('except', 'finally')) or '+x' in c or '+f' in c) and rng.random() < 0.6:
+            # resumed inside a handler: the exception being handled must still be there
+            lines.append("log(('ei', type(sys.exc_info()[1]).__name__))")
         lines.append('acc += 1')
         return [ind + ln for ln in lines]
 
